@@ -377,6 +377,9 @@ namespace awkward {
     void
       internal_run(bool single_step, int64_t recursion_target_depth_top); // noexcept
 
+    void
+      single_step_unwind(int64_t recursion_target_depth_top);
+
     /// @brief HERE
     void
       write_from_stack(int64_t num, T* top) noexcept;
